@@ -55,18 +55,28 @@ def generate(run_seed, tier):
         n_in = min(rows, mb + rw.choice([1, 2, mb, mb * mb - 1, mb * mb + 1]))
         if rw.random() < 0.5:
             n_out = mb + rw.choice([1, 2, mb])
-    on_kind = rw.choice(["col", "col", "cols", "index"])
+    on_kind = rw.choice(["col", "col", "cols", "index", "index_by_name"])
+    if on_kind == "index_by_name" and k1 in ("float_nan", "str_none"):
+        on_kind = "col"  # from_pandas refuses / mishandles nulls in the index: not a shuffle matter
+    if on_kind == "index_by_name":
+        # the key lives in a named index and is referenced by name (on="k"); values = column k's values
+        table["key_in_index"] = True
     spec = {
         "property": PROPERTY, "table": table, "n_in": max(1, n_in), "n_out": n_out, "method": method, "max_branch": mb,
-        "ignore_index": rw.random() < 0.25 and on_kind != "index", "on": {"col": ["k"], "cols": ["k", "j"], "index": None}[on_kind],
+        "ignore_index": rw.random() < 0.25 and on_kind not in ("index", "index_by_name"), "on": {"col": ["k"], "cols": ["k", "j"], "index": None, "index_by_name": ["k"]}[on_kind],
         "sort": table["index"] != "int_unsorted" or rw.random() < 0.5,
         "fuse": rw.random() < 0.5,
     }
     if rw.random() < 0.4:
         eff_out = n_out or spec["n_in"]
-        k = rw.randint(1, min(3, eff_out))
+        k = rw.randint(1, max(1, eff_out - 1))
         spec["subset"] = sorted(rw.sample(range(eff_out), k))
+        if eff_out >= 2 and rw.random() < 0.5:
+            # a second, different subset of the same shuffle that will share one graph with the first
+            k2 = rw.randint(1, max(1, eff_out - 1))
+            spec["subset2"] = sorted(rw.sample(range(eff_out), k2))
     if k1 == "int_dup" and on_kind != "index" and rw.random() < 0.6:
+        spec["twin_key_in_index"] = rw.random() < 0.3 and on_kind != "cols"
         spec["twin"] = {"method": rw.choice(["tasks", "disk"]), "max_branch": rw.choice([2, 3, 4, 8, 32, None]),
                         "n_in": rw.choice([1, 2, 3, 5, 8]), "dtype": rw.choice(["float64", "int32", "float32"])}
     spec["worlds"] = [S.World.draw(rs).to_json() for _ in range(2 if tier == "quick" else 4)]
@@ -82,14 +92,19 @@ def generate(run_seed, tier):
 def _mk(spec, twin=None, force_out=None):
     import dask_expr as dx
 
-    pdf = W.make_table(spec["table"])
+    tspec = dict(spec["table"])
+    key_in_index = tspec.pop("key_in_index", False)
+    pdf = W.make_table(tspec)
     n_in = spec["n_in"]
     method, mb = spec["method"], spec["max_branch"]
     if twin is not None:
         pdf = pdf.copy()
         pdf["k"] = pdf["k"].astype(twin["dtype"])
+        key_in_index = spec.get("twin_key_in_index", False) if not key_in_index else False
         n_in = min(len(pdf), twin["n_in"])
         method, mb = twin["method"], twin["max_branch"]
+    if key_in_index:
+        pdf = pdf.set_index("k")
     src = dx.from_pandas(pdf, npartitions=n_in, sort=spec.get("sort", True))
     kw = {"shuffle_method": method}
     if mb:
@@ -122,7 +137,7 @@ def _keys_of(df, on):
     if on is None:
         vals = [(_canon_scalar(v),) for v in df.index.tolist()]
     else:
-        cols = [[_canon_scalar(v) for v in df[c].tolist()] for c in on]
+        cols = [[_canon_scalar(v) for v in (df[c] if c in df.columns else (df.index if df.index.nlevels == 1 else df.index.get_level_values(c))).tolist()] for c in on]
         vals = list(zip(*cols)) if cols else []
     return vals
 
@@ -154,12 +169,20 @@ def _execute(spec, ses, seam):
     counters = {"runs": 0, "rows": 0, "keys": 0, "staged": 0, "subset_checks": 0, "twin_checks": 0, "fault_runs": 0,
                 "fault_raised": 0, "fault_not_reached": 0}
     faults = {}
-    pdf, src, sh = _mk(spec)
+    try:
+        pdf, src, sh = _mk(spec)
+    except Exception as e:
+        if classify(e) == "refusal":
+            return _done({"verdict": "indeterminate", "detail": exc_detail(e)}, ses, counters, spec, seam, faults)
+        return _done(_viol("shuffle_build_failed", exc_signature(e), exc_detail(e)), ses, counters, spec, seam, faults)
     fuse = spec.get("fuse", False)
     ii = spec["ignore_index"]
     on = spec["on"]
-    n_in = src.npartitions
-    n_out = sh.npartitions
+    try:
+        n_in = src.npartitions
+        n_out = sh.npartitions
+    except Exception as e:
+        return _done({"verdict": "indeterminate", "detail": exc_detail(e)}, ses, counters, spec, seam, faults)
     mb = spec["max_branch"] or 32
     if spec["method"] == "tasks" and n_in > mb and n_out > mb:
         counters["staged"] = 1
@@ -221,12 +244,40 @@ def _execute(spec, ses, seam):
                     eq, why = obs_equal(a, b)
                     if not eq:
                         return _done(_viol("subset", "content", "partition %d: %s" % (p, why)), ses, counters, spec, seam, faults)
+    # two different subsets of one shuffle inside one graph
+    if spec.get("subset") and spec.get("subset2") and first_parts is not None:
+        import dask_expr as dx
+
+        P1 = [p for p in spec["subset"] if p < n_out]
+        P2 = [p for p in spec["subset2"] if p < n_out]
+        if P1 and P2 and P1 != P2:
+            both = dx.concat([sh.partitions[P1], sh.partitions[P2]])
+            out = ses.run(lambda sch: both.compute(scheduler=sch.get, fuse=fuse), S.World.from_json(spec["worlds"][0]), monitor=False,
+                          observe_fn=lambda v: observe(v, labels=not ii, order=False, kinds=False))
+            counters["subset_checks"] += 1
+            if out.cls == "ok":
+                exp = pd.concat([first_parts[p] for p in P1 + P2])
+                eq, why = obs_equal(observe(exp, labels=not ii, order=False, kinds=False), out.obs)
+                if not eq:
+                    return _done(_viol("subset", "two_subsets_one_graph", "concat of partitions %s and %s of one shuffle: %s" % (P1, P2, why)), ses, counters, spec, seam, faults)
+            elif out.cls not in ("refusal",):
+                return _done(_viol("subset_failed", "two_subsets:" + (exc_signature(out.exc) if out.exc else out.cls), out.detail), ses, counters, spec, seam, faults)
     # twin frame: same key values in another numeric dtype -> same partition number
     if spec.get("twin") and key_part is not None:
-        tpdf, tsrc, tsh = _mk(spec, twin=spec["twin"], force_out=n_out)
-        out, _ = _partitions(ses, tsh, S.World.from_json(spec["worlds"][0]), fuse)
+        try:
+            tpdf, tsrc, tsh = _mk(spec, twin=spec["twin"], force_out=n_out)
+        except Exception as e:
+            if classify(e) == "refusal":
+                tsh = None
+            else:
+                return _done(_viol("twin_failed", "build:" + exc_signature(e), exc_detail(e)), ses, counters, spec, seam, faults)
+        out = None
+        if tsh is not None:
+            out, _ = _partitions(ses, tsh, S.World.from_json(spec["worlds"][0]), fuse)
         counters["twin_checks"] += 1
-        if out.cls == "ok":
+        if out is None:
+            pass
+        elif out.cls == "ok":
             if len(out.obs) != n_out:
                 return _done(_viol("twin", "count", "twin has %d partitions vs %d" % (len(out.obs), n_out)), ses, counters, spec, seam, faults)
             for pi, p in enumerate(out.obs):
@@ -294,7 +345,7 @@ def shrink_candidates(spec):
         s = dict(spec)
         s["table"] = dict(t, rows=max(4, t["rows"] // 2))
         yield s
-    for key in ("subset", "twin", "partd"):
+    for key in ("subset2", "subset", "twin", "partd"):
         if spec.get(key):
             s = dict(spec)
             s.pop(key)
